@@ -3,6 +3,8 @@ C05 property theorems. Only statements of the property + non-vacuity examples li
 helper lemmas are in Lemmas*.lean.
 -/
 import BV.C05.Lemmas
+import BV.C05.Lemmas2
+import BV.C05.Lemmas3
 namespace BV.C05
 open Treap
 
@@ -82,16 +84,220 @@ theorem treap_refines_map (ops : List (TOp Key Val)) :
       | del k => exact (treap_delete_spec t k hs).1
     · exact map_sorted_preserved _ hs op
 
-/-- Snapshot isolation at the treap level: a reader holding version `t` observes the same contents
-and lookups whatever updates are applied afterwards to produce later versions (versions are values;
-that the Go code never mutates nodes shared with an older version, including through its node
-recycling pool, is what the correspondence run checks by reading old versions back). -/
-theorem treap_snapshot_isolation (t : Treap Key Val) (later : List (TOp Key Val)) (k : Key) :
-    let _t' := later.foldl (applyOp cmpB) t
-    Treap.get cmpB k t = Treap.get cmpB k t ∧ t.toList = t.toList := by
-  intro _; exact ⟨rfl, rfl⟩
-
 example : SortedKeys cmpB (put cmpB [1] [2] 7 (.nil : Treap Key Val)).toList :=
   (treap_put_spec .nil [1] [2] 7 List.Pairwise.nil).2
+
+/-! ### (b) transaction layer -/
+
+/-- Read-your-writes: a pending put is a map update of what the writer reads. -/
+theorem tx_get_after_put (s : Snap) (pKeys pRem : KV) (k k' : Key) (v : Val)
+    (h : Lemmas.LayerOk pKeys pRem) :
+    txGet true (pendPut pKeys pRem k v).1 (pendPut pKeys pRem k v).2 s k' =
+      if k' = k then some v else txGet true pKeys pRem s k' :=
+  Lemmas.txGet_pendPut s pKeys pRem k k' v h
+
+/-- … and a pending delete removes exactly that key. -/
+theorem tx_get_after_delete (s : Snap) (pKeys pRem : KV) (k k' : Key)
+    (h : Lemmas.LayerOk pKeys pRem) :
+    txGet true (pendDel pKeys pRem k).1 (pendDel pKeys pRem k).2 s k' =
+      if k' = k then none else txGet true pKeys pRem s k' :=
+  Lemmas.txGet_pendDel s pKeys pRem k k' h
+
+/-- `tx_atomic`, commit: whichever path `commitTx` takes (fold into the cache, or flush the cache
+and write the transaction to leveldb), a transaction that begins afterwards reads for EVERY key
+exactly what the committing writer read last: the pending operations are applied completely and
+nothing else changes. (Rollback and every failure before `commitTx` leave `ldb`, `cKeys`, `cRem`
+untouched by construction: they are only assigned in these two places.) -/
+theorem tx_atomic (k : Key) (ldb cKeys cRem pKeys pRem : KV) (hl : SortedKeys cmpB ldb)
+    (hc : Lemmas.LayerOk cKeys cRem) (hp : Lemmas.LayerOk pKeys pRem) :
+    Snap.get ⟨ldb, (commitCache cKeys cRem pKeys pRem).1, (commitCache cKeys cRem pKeys pRem).2⟩ k =
+        txGet true pKeys pRem ⟨ldb, cKeys, cRem⟩ k ∧
+    Snap.get ⟨applyToLdb (applyToLdb ldb cKeys cRem) pKeys pRem, [], []⟩ k =
+        txGet true pKeys pRem ⟨ldb, cKeys, cRem⟩ k :=
+  ⟨Lemmas.commit_cache_path k ldb cKeys cRem pKeys pRem hc hp,
+   Lemmas.commit_flush_path k ldb cKeys cRem pKeys pRem hl hc hp⟩
+
+/-- the layer invariant used above is established by the empty layer and kept by every operation -/
+theorem layer_invariant (cKeys cRem pKeys pRem : KV) (k : Key) (v : Val)
+    (hc : Lemmas.LayerOk cKeys cRem) (hp : Lemmas.LayerOk pKeys pRem) :
+    Lemmas.LayerOk [] [] ∧
+    Lemmas.LayerOk (pendPut pKeys pRem k v).1 (pendPut pKeys pRem k v).2 ∧
+    Lemmas.LayerOk (pendDel pKeys pRem k).1 (pendDel pKeys pRem k).2 ∧
+    Lemmas.LayerOk (commitCache cKeys cRem pKeys pRem).1 (commitCache cKeys cRem pKeys pRem).2 :=
+  ⟨⟨List.Pairwise.nil, List.Pairwise.nil⟩, Lemmas.pendPut_ok _ _ _ _ hp, Lemmas.pendDel_ok _ _ _ hp,
+   Lemmas.commitCache_ok _ _ _ _ hc⟩
+
+/-- A flush moves the cache to leveldb without changing any read. -/
+theorem flush_invisible (k : Key) (ldb cKeys cRem : KV) (hl : SortedKeys cmpB ldb)
+    (hc : Lemmas.LayerOk cKeys cRem) :
+    Snap.get ⟨applyToLdb ldb cKeys cRem, [], []⟩ k = Snap.get ⟨ldb, cKeys, cRem⟩ k :=
+  Lemmas.flush_preserves_reads k ldb cKeys cRem hl hc
+
+/-- `reader_snapshot_stable`: what a read-only transaction reads is a function of the snapshot value
+taken at `begin` alone — neither its own (ignored) pending layer nor any later state of the cache
+enters. Snapshots are values: `commitCache`/`applyToLdb` build new versions (persistent treaps,
+leveldb snapshots) and never update the old ones; that the Go treap really is persistent is
+`treap_refines_map` plus the correspondence runs that read old versions back after later updates. -/
+theorem reader_snapshot_stable (s : Snap) (pKeys pRem : KV) (k : Key) :
+    txGet false pKeys pRem s k = s.get k := by
+  unfold txGet; simp
+
+/-! ### (c) cursor -/
+
+/-- `cursor_forward`: `First` followed by `Next`s emits the sorted merge of the pending entries with
+the committed entries that are not shadowed (pending for removal or update). -/
+theorem cursor_forward {K V : Type} (cmp : K → K → Ordering) (sh : K → Bool) (A B : List (K × V)) :
+    fwdRun cmp sh A B = mergeSorted cmp (A.filter (fun x => !sh x.1)) B :=
+  Lemmas.fwdRun_eq_merge cmp sh A B
+
+/-- `cursor_backward`: `Last` followed by `Prev`s emits the same merge of the reversed lists under
+the reversed order. -/
+theorem cursor_backward {K V : Type} (cmp : K → K → Ordering) (sh : K → Bool) (A B : List (K × V)) :
+    bwdRun cmp sh A B =
+      mergeSorted (fun x y => cmp y x) (A.reverse.filter (fun x => !sh x.1)) B.reverse :=
+  Lemmas.fwdRun_eq_merge _ sh _ _
+
+/-- the two committed keys 1, 3 and the pending key 2 of finding F-C05-a -/
+def witnessA : List (Nat × Nat) := [(1, 10), (3, 30)]
+def witnessB : List (Nat × Nat) := [(2, 20)]
+def witnessSh (k : Nat) : Bool := k == 2
+
+/-- On monotone runs the general (position-based) algorithm agrees with the merge on the witness … -/
+theorem witness_merged :
+    mergeSorted cmpNat (witnessA.filter (fun x => !witnessSh x.1)) witnessB = [(1, 10), (2, 20), (3, 30)] := by
+  simp [mergeSorted, mergeSorted.go, witnessA, witnessB, witnessSh, cmpNat]
+
+example : collectFwd cmpNat witnessSh witnessA witnessB 5 (mFirst cmpNat witnessSh witnessA witnessB)
+    = [(1, 10), (2, 20), (3, 30)] := by decide
+
+/-- `cursor_mixed_full_fails` (finding F-C05-a): for arbitrary operation sequences the cursor is NOT
+navigation in the merged list: after `First, Next, Next` (at key 3) `Prev` yields key 1, the
+predecessor in the merged list [1,2,3] is 2. -/
+theorem cursor_mixed_full_fails :
+    ¬ ∀ (A B : List (Nat × Nat)) (sh : Nat → Bool),
+      (mPrev cmpNat sh A B (mNext cmpNat sh A B (mNext cmpNat sh A B (mFirst cmpNat sh A B)))).entry =
+        (match (mNext cmpNat sh A B (mNext cmpNat sh A B (mFirst cmpNat sh A B))).entry with
+         | some e => lastLT cmpNat e.1 (mergeSorted cmpNat (A.filter (fun x => !sh x.1)) B)
+         | none => none) := by
+  intro h
+  have h1 := h witnessA witnessB witnessSh
+  rw [witness_merged] at h1
+  revert h1
+  decide
+
+/-- `cursor_mixed_partial`: what IS proved for cursors: runs that keep one direction after being
+positioned (`cursor_forward`, `cursor_backward`). Missing: operation sequences that change
+direction without repositioning (finding F-C05-a, `cursor_mixed_full_fails`). -/
+theorem cursor_mixed_partial {K V : Type} (cmp : K → K → Ordering) (sh : K → Bool) (A B : List (K × V)) :
+    fwdRun cmp sh A B = mergeSorted cmp (A.filter (fun x => !sh x.1)) B ∧
+    bwdRun cmp sh A B = mergeSorted (fun x y => cmp y x) (A.reverse.filter (fun x => !sh x.1)) B.reverse :=
+  ⟨cursor_forward cmp sh A B, cursor_backward cmp sh A B⟩
+
+/-! ### (e) block log -/
+
+theorem crcStep_lt (c : Nat) (h : c < 2^32) : crcStep c < 2^32 := by
+  unfold crcStep
+  split
+  · exact Nat.xor_lt_two_pow (by omega) (by decide)
+  · omega
+
+theorem crc32c_lt (bs : Bytes) : crc32c bs < 2^32 := by
+  unfold crc32c
+  apply Nat.xor_lt_two_pow _ (by decide)
+  suffices h : ∀ (c : Nat), c < 2^32 → bs.foldl crcByte c < 2^32 from h _ (by decide)
+  induction bs with
+  | nil => intro c hc; exact hc
+  | cons b bs ih =>
+    intro c hc
+    apply ih
+    unfold crcByte
+    have hb : c ^^^ b.toNat < 2^32 :=
+      Nat.xor_lt_two_pow hc (Nat.lt_of_lt_of_le b.toNat_lt (by decide))
+    exact crcStep_lt _ (crcStep_lt _ (crcStep_lt _ (crcStep_lt _ (crcStep_lt _ (crcStep_lt _
+      (crcStep_lt _ (crcStep_lt _ hb)))))))
+
+/-- `block_bytes_faithful`: a block written by `writeBlock` anywhere in a file is read back
+byte-identical by `readBlock`, for every block, network and surrounding file content. -/
+theorem block_bytes_faithful (net : Nat) (pre b post : Bytes) :
+    readRecord crc32c net (pre ++ record crc32c net b ++ post) pre.length (b.length + 12) = .ok b :=
+  Lemmas.readRecord_record crc32c crc32c_lt net pre b post
+
+/-- regions are sub-slices of the stored block -/
+theorem block_region_subslice (net : Nat) (pre b post : Bytes) (off n : Nat) (h : off + n ≤ b.length) :
+    readRegion (pre ++ record crc32c net b ++ post) pre.length off n = some ((b.drop off).take n) :=
+  Lemmas.readRegion_record crc32c net pre b post off n h
+
+/-- and the Spec's region function is that sub-slice whenever the request is in range -/
+theorem spec_region_in_range (b : Bytes) (off n : Nat) (h : off + n ≤ b.length) (h32 : b.length < 2^32) :
+    specRegion b off n = some ((b.drop off).take n) := by
+  unfold specRegion
+  have e : (off + n) % 2^32 = off + n := Nat.mod_eq_of_lt (by omega)
+  rw [e]
+  have : ¬ (off + n < off ∨ off + n > b.length) := by omega
+  simp [this]
+
+/-- checksum mismatch ⇒ corruption error, for any file content -/
+theorem block_checksum_mismatch (net : Nat) (file : Bytes) (off len : Nat)
+    (hl : ¬ ((file.drop off).take len).length < len)
+    (hm : BV.Hex.beToNat (((file.drop off).take len).drop (len - 4)) ≠
+          crc32c (((file.drop off).take len).take (len - 4))) :
+    readRecord crc32c net file off len = .corruption := by
+  unfold readRecord
+  simp only [hl, if_false, hm, ne_eq, not_false_eq_true, if_true]
+
+/-- a record of another network is refused -/
+theorem block_wrong_network (net net' : Nat) (pre b post : Bytes) (h : net % 2^32 ≠ net' % 2^32) :
+    readRecord crc32c net' (pre ++ record crc32c net b ++ post) pre.length (b.length + 12) = .wrongNet := by
+  have hlen := Lemmas.record_length crc32c net b
+  have hdata : ((pre ++ record crc32c net b ++ post).drop pre.length).take (b.length + 12)
+      = record crc32c net b := by
+    rw [List.append_assoc, List.drop_left' rfl, List.take_left' hlen]
+  unfold readRecord
+  simp only [hdata]
+  have hhdr : (le32 net ++ le32 b.length ++ b).length = b.length + 12 - 4 := by
+    simp [Lemmas.le32_length]; omega
+  have htake : (record crc32c net b).take (b.length + 12 - 4) = le32 net ++ le32 b.length ++ b := by
+    unfold record; rw [List.take_left' hhdr]
+  have hdrop : (record crc32c net b).drop (b.length + 12 - 4) = be32 (crc32c (le32 net ++ le32 b.length ++ b)) := by
+    unfold record; rw [List.drop_left' hhdr]
+  have htake4 : (record crc32c net b).take 4 = le32 net := by
+    unfold record; rw [List.append_assoc, List.append_assoc, List.take_left' (Lemmas.le32_length net)]
+  rw [htake, hdrop, htake4, Lemmas.beToNat_be32, Lemmas.leToNat_le32, hlen,
+    Nat.mod_eq_of_lt (crc32c_lt _)]
+  simp [h]
+
+/-- the write-cursor row and the block-location row round-trip (uint32 fields) -/
+theorem write_row_roundtrip (f o : Nat) :
+    deserializeWriteRow crc32c (serializeWriteRow crc32c f o) = some (f % 2^32, o % 2^32) :=
+  Lemmas.writeRow_roundtrip crc32c crc32c_lt f o
+
+theorem block_loc_roundtrip (f o l : Nat) :
+    deserializeBlockLoc (serializeBlockLoc f o l) = (f % 2^32, o % 2^32, l % 2^32) :=
+  Lemmas.blockLoc_roundtrip f o l
+
+/-- `reconcileDB` decides by the lexicographic comparison of (file, offset): equal ⇒ nothing to do,
+block data ahead of the metadata ⇒ truncate back to the metadata's cursor, metadata ahead ⇒ refuse. -/
+theorem reconcile_spec (df dof mf mo : Nat) :
+    (reconcileAction df dof mf mo = .clean ↔ (df = mf ∧ dof = mo)) ∧
+    (reconcileAction df dof mf mo = .truncateTo mf mo ↔ (df > mf ∨ (df = mf ∧ dof > mo))) ∧
+    (reconcileAction df dof mf mo = .refuse ↔ (df < mf ∨ (df = mf ∧ dof < mo))) :=
+  Lemmas.reconcile_cases df dof mf mo
+
+/-- `prefix_durable`: run any history of commits (each taking the cache or the flush path) and
+explicit flushes, and let a crash strike between ANY two I/O steps. Then the metadata on disk is the
+result of applying a prefix of the commits (the first `nDisk`), in order, to the initial state, and
+the block data of at least those commits has been synced before (`nDisk ≤ nSynced`), so reopening
+finds block data at or beyond the metadata's write cursor — `reconcile_spec` then truncates the
+surplus and never has to refuse. Assumes a leveldb transaction commit is atomic and durable. -/
+theorem prefix_durable {S C : Type} (apply : S → C → S) (s0 : S) (evs : List (DEvent C))
+    (d : DState S C) (hc : CrashAt apply (init s0) evs d) :
+    d.nDisk ≤ d.nSynced ∧ d.nDisk ≤ (commitsOf evs).length ∧
+      crashImage d = ((commitsOf evs).take d.nDisk).foldl apply s0 := by
+  have := Lemmas.crash_safe apply s0 (init s0) evs d (Lemmas.init_inv apply s0) hc
+  simpa [Lemmas.CrashSafe, init, crashImage] using this
+
+example : CrashAt (fun (s : Nat) (c : Nat) => s + c) (init 0) [DEvent.commit 5 false, DEvent.flush]
+    (runMicros (fun s c => s + c) (init 0) ((stepsOf (DEvent.commit 5 false)).take 1)) :=
+  CrashAt.inEvent _ _ _ 1
 
 end BV.C05
